@@ -166,8 +166,15 @@ def check_a(ck, repo):
         if not normal:
             ck.unknown("C18.a", fi, f"{label} cell update", "no path through the innermost loop body")
             continue
+        vectorised = False
         for p in normal:
             cell = [(k, v) for k, v in p.named_stores.items() if k.replace(".iloc", "") == f"cor[{iv}, {jv}]"]
+            if not cell and not any(k.replace(".iloc", "").startswith("cor[") for k in p.named_stores):
+                # the accumulator is not touched cell by cell in the loop body (e.g. a whole matrix of
+                # terms is added once per draw): another bookkeeping, which this rule does not follow
+                vectorised = True
+                ck.unknown("C18.a", fi, f"{label} cell update", "the innermost loop body does not update the accumulator: the terms are accumulated in another way than `cell += term` per (draw, i, j)")
+                continue
             if len(cell) != 1 or not (isinstance(cell[0][1], ast.BinOp) and isinstance(cell[0][1].op, ast.Add) and _t(cell[0][1].left).replace(".iloc", "") == f"{cor}[{iv}, {jv}]"):
                 ck.violated("C18.a", fi, f"{label} cell update {[(k, _t(v)[:40]) for k, v in cell]}", "the cell update is not `cell += term` exactly once per (draw, i, j)")
                 continue
@@ -202,6 +209,8 @@ def check_a(ck, repo):
                 n_clone = sum(1 for c in allcalls if _t(c) == f"clone({model})")
                 ck.verdict(n_clone >= 1, "C18.b", fi, f"clone({model}) in the cell body", "a fresh clone per cell: the caller's model is untouched and no fit carries over to another cell", f"the model is not cloned once per cell: the caller's model is fitted in place, or a model that keeps state between fits (warm_start) carries the fit for another target into this cell")
             ck.verdict(okr, "C18.a", fi, f"term residual: {tt[:100]}", "c = 1 - variance of (prediction of column j from column i - column j) on the test half, model trained on the train half of the same split of the standardised data", "the term is not 1 - var(prediction - target) with the model trained on (x_i train, x_j train) and evaluated on x_i test of the same split")
+        if vectorised:
+            continue
         # mean over the draws
         r = top.ret
         first = r.elts[0] if isinstance(r, ast.Tuple) and r.elts else r
@@ -236,6 +245,7 @@ def check_b(ck, repo):
         ck.verdict(mini == maxi == f"{cor}.copy()", "C18.b", fi, f"mini/maxi = {mini[:40]}", "min and max matrices are separate copies of the zeroed container", "mini/maxi are not separate copies of the result container")
         frame = (f"hasattr({df}, 'iloc')", True) in pre.conds
         sig = []
+        vector_b = False
         for p in [p for p in inner if p.ret is None]:
             first = None
             for t, pol in p.conds:
@@ -247,6 +257,9 @@ def check_b(ck, repo):
             tm = _t(acc.right) if isinstance(acc, ast.BinOp) else None
             mn, mx = st.get(f"mini{cell}"), st.get(f"maxi{cell}")
             mcur, xcur = f"{mini}{cell}", f"{maxi}{cell}"
+            if acc is None and mn is None and mx is None and not any(k.startswith(("cor[", "mini[", "maxi[")) for k in st):
+                vector_b = True
+                continue
             if tm is None or mn is None or mx is None:
                 ok = False
             elif first is True:
@@ -256,6 +269,9 @@ def check_b(ck, repo):
             else:
                 ok = False
             sig.append((first, ok, tuple(sorted((k, _t(v).replace(".iloc", "").replace(cor or "?", "COR")) for k, v in st.items()))))
+        if vector_b and not sig:
+            ck.unknown("C18.b", fi, f"min/max bookkeeping ({'frame' if frame else 'array'})", "min and max are not kept cell by cell in the loop body: another bookkeeping than the one this rule reads")
+            continue
         ck.verdict(bool(sig) and all(ok for _, ok, _ in sig) and {f for f, _, _ in sig} == {True, False}, "C18.b", fi, f"min/max bookkeeping ({'frame' if frame else 'array'})", "min and max start at the first draw's term and are updated with min/max of the same term", "min/max bookkeeping changed: min <= mean <= max can fail (not initialised at the first draw, or not updated with min/max of the accumulated term)")
         by_kind[frame] = sorted(s_[2] for s_ in sig)
     # the running extremum of a cell is updated from that very cell: `maxi` and `mini` start as
@@ -361,8 +377,13 @@ def check_c(ck, repo):
     for p in ps:
         if truth_of(p.conds, f"{T} is None") is True and truth_of(p.conds, f"{V} is None") is True and any(isinstance(c, ast.Call) and ast.unparse(c.func) == mf for c in p.calls):
             both_none_ok = False
-    ck.verdict(not bad and set(seen) == set(table), "C18.c", cm, f"{sorted(seen.items())}", "names resolved through the table; tr is applied to y_true and inv_tr to y_pred in every case, a missing one means identity", f"return values are {sorted(seen.items())} {bad}: a transformation is applied to the wrong argument, skipped, or a name is not resolved into its own variable")
-    ck.verdict(both_none_ok and any(p.ret == RAISE and truth_of(p.conds, f"{T} is None") is True and truth_of(p.conds, f"{V} is None") is True for p in ps), "C18.c", cm, "tr is None and inv_tr is None -> raise", "the call is refused when both are missing, before anything is computed", "the both-None case is not refused before the metric is computed")
+    undecided = not seen and bad and all(isinstance(b_[0], list) for b_ in bad)
+    if undecided:
+        ck.unknown("C18.c", cm, "comparable_metric: cases by missing transformation", f"no path tells a missing tr / inv_tr apart by a test `... is None` on the resolved functions (the cases are handled by data, e.g. a table walked by loops): the rule reading the three cases does not apply ({len(bad)} paths)")
+    else:
+        ck.verdict(not bad and set(seen) == set(table), "C18.c", cm, f"{sorted(seen.items())}", "names resolved through the table; tr is applied to y_true and inv_tr to y_pred in every case, a missing one means identity", f"return values are {sorted(seen.items())} {bad}: a transformation is applied to the wrong argument, skipped, or a name is not resolved into its own variable")
+    if not undecided:
+        ck.verdict(both_none_ok and any(p.ret == RAISE and truth_of(p.conds, f"{T} is None") is True and truth_of(p.conds, f"{V} is None") is True for p in ps), "C18.c", cm, "tr is None and inv_tr is None -> raise", "the call is refused when both are missing, before anything is computed", "the both-None case is not refused before the metric is computed")
     r2 = repo.func(SM, "r2_score_comparable")
     c = [x for x in own_nodes_incl_lambda(r2.node) if isinstance(x, ast.Call) and src_of(x.func) == "comparable_metric"]
     ok = False
